@@ -154,7 +154,8 @@ impl DiskRowset {
                     let mut first_key: &[u8] = &index.first_key;
                     let first_val: i32 = PrimitiveFixedWidthEncode::decode(&mut first_key);
 
-                    if first_val > begin_val {
+                    // a key equal to the first key of a block may also be at the end of the block before
+                    if first_val >= begin_val {
                         break;
                     }
                     pre_block_first_key = index.first_rowid;
